@@ -1,13 +1,15 @@
-\* IDEAL lock protocol, all scenarios of 4 requests over the reduced request pools.
+\* IDEAL lock protocol, all scenarios of 4 requests over the reduced request pools (submissions, selections, play; the
+\* scenarios of 4 requests with a walk are the hand-picked ones of MC_SpinLock_thorough.cfg).
 SPECIFICATION Spec
 CONSTANTS
   KF_SharedLockRefCountRace = FALSE
   Sizes = {4}
-  KvPool <- KvPoolSmall
-  TokPool <- TokPoolSmall
+  KvPool <- KvPool4
+  TokPool <- TokPool4
   Extra <- NoExtra
   GFirst = TRUE
   SelDet = FALSE
+  RecSteps = TRUE
   LogOn = TRUE
 VIEW View
 INVARIANT TypeOK
@@ -17,4 +19,5 @@ INVARIANT SelectorsDisjoint
 INVARIANT SelHeld
 INVARIANT Serialisable
 INVARIANT Quiescent
+INVARIANT TableMatchesHeld
 CHECK_DEADLOCK TRUE
